@@ -621,8 +621,19 @@ def concurrent_specs(ctx, n):
     models = {'P': mspec('pheno', 'p', 'first'), 'I': mspec('init', 'i', 'shares the dataset'),
               'D': mspec('data', 'd', 'other dataset', res=True), 'T': mspec('ditype', 't', 'other datainfo')}
     out = []
+    # context-level writers (annotation_writers_serializable / log_writers_serializable): every fourth run lets the
+    # two processes write the annotations file (different names / the same name) or the log at the same time
+    ctxw = [([['annot', 'na', 'text a']], [['annot', 'nb', 'text b']]),
+            ([['log', 'info', 'message a', None]], [['log', 'warning', 'message, "b"', None]]),
+            ([['annot', 'n', 'text a']], [['annot', 'n', 'text b']])]      # one file per run: the order of the log lines
+    #                                                                          and that of the annotations are independent
     for k in range(n):
-        a, b = [('P', 'I'), ('P', 'D'), ('I', 'D'), ('D', 'T')][k % 4]
+        if k % 4 == 3:
+            wa, wb = ctxw[(k // 4) % len(ctxw)]
+            out.append({'models': models, 'pre': [['init'], ['annot', 'old', 'kept']], 'a': [['init']] + wa, 'b': [['init']] + wb,
+                        'seed': ctx.rng.randrange(10 ** 6)})
+            continue
+        a, b = [('P', 'I'), ('P', 'D'), ('I', 'D'), ('D', 'T')][k % 4 if k % 8 < 4 else 3]
         pre = [['init']] + ([['store', 'T']] if k % 3 == 2 and 'T' not in (a, b) else [])
         out.append({'models': models, 'pre': pre, 'a': [['init'], ['store', a]], 'b': [['init'], ['store', b]],
                     'seed': ctx.rng.randrange(10 ** 6)})
